@@ -104,6 +104,10 @@ def type_of(ex, t: Term, st=None, _depth=0, param_types=None) -> frozenset:
     if t._ty is not None and st is None:
         return t._ty
     r = _type_of(ex, t, st, _depth, param_types)
+    if "?" in r:
+        h = getattr(ex, "type_hints", {}).get(t.uid)
+        if h is not None:
+            r = h - frozenset(["none"]) if len(h) > 1 else h
     if st is None and param_types is None:
         t._ty = r
     return r
